@@ -363,6 +363,76 @@ func c09Header(w *World, r *Report) {
 			}
 		})
 	}
+	if eu != nil && pad < 0 && valueThreshold < 0 && base > 0 {
+		// digits right-aligned in a field of zeroes: `u := []byte{'0','0'}; copy(u[2-len(digits):], digits)` —
+		// the width is the size of the field
+		var field *ssa.Alloc
+		allInstrs(eu, func(in ssa.Instruction) {
+			al, ok := in.(*ssa.Alloc)
+			if !ok {
+				return
+			}
+			arr, ok := al.Type().(*types.Pointer).Elem().Underlying().(*types.Array)
+			if !ok || al.Referrers() == nil {
+				return
+			}
+			if bt, ok := arr.Elem().Underlying().(*types.Basic); !ok || bt.Kind() != types.Uint8 {
+				return
+			}
+			zeros := int64(0)
+			for _, ref := range *al.Referrers() {
+				if ia, ok := ref.(*ssa.IndexAddr); ok && ia.Referrers() != nil {
+					for _, r2 := range *ia.Referrers() {
+						if st, ok := r2.(*ssa.Store); ok {
+							if k, ok := constIntVal(st.Val); ok && k == '0' {
+								zeros++
+							}
+						}
+					}
+				}
+			}
+			if zeros == arr.Len() {
+				field = al
+			}
+		})
+		if field != nil {
+			allInstrs(eu, func(in ssa.Instruction) {
+				c, ok := in.(*ssa.Call)
+				if !ok {
+					return
+				}
+				if b, ok := c.Call.Value.(*ssa.Builtin); !ok || b.Name() != "copy" {
+					return
+				}
+				sl, ok := c.Call.Args[0].(*ssa.Slice)
+				if !ok || sl.High != nil {
+					return
+				}
+				inField := false
+				for _, root := range provenance(sl.X, provOpts{}) {
+					if root == ssa.Value(field) {
+						inField = true
+					}
+				}
+				if !inField {
+					if sl2, ok := sl.X.(*ssa.Slice); ok && sl2.X == ssa.Value(field) {
+						inField = true
+					}
+				}
+				// the offset is width - len(source)
+				n := field.Type().(*types.Pointer).Elem().Underlying().(*types.Array).Len()
+				if bo, ok := sl.Low.(*ssa.BinOp); ok && inField && bo.Op == token.SUB {
+					if k, ok := constIntVal(bo.X); ok && k == n {
+						if lc, ok := bo.Y.(*ssa.Call); ok {
+							if bi, ok := lc.Call.Value.(*ssa.Builtin); ok && bi.Name() == "len" && len(lc.Call.Args) == 1 && lc.Call.Args[0] == c.Call.Args[1] {
+								pad = n
+							}
+						}
+					}
+				}
+			})
+		}
+	}
 	thresholdProblem := ""
 	if valueThreshold >= 0 && pad < 0 {
 		pad = 2
@@ -1155,6 +1225,41 @@ func c10Records(w *World, r *Report) {
 				}
 			}
 		})
+		if !found {
+			// the switch lives in a helper that hands the width back: `case *dns.CNAME: return v.Target, 2, true`,
+			// and the caller cuts `name[width:]`
+			allInstrs(fn, func(in ssa.Instruction) {
+				ret, ok := in.(*ssa.Return)
+				if !ok || len(ret.Results) < 2 || !region(in.Block()) {
+					return
+				}
+				for i, res := range ret.Results {
+					k, isC := constIntVal(res)
+					if bt, okb := res.Type().Underlying().(*types.Basic); !isC || !okb || bt.Info()&types.IsInteger == 0 {
+						continue
+					}
+					for caller := range allModuleFuncs(w, w.SSA()) {
+						for _, c := range callsIn(caller) {
+							call, isCall := c.(*ssa.Call)
+							if !isCall || c.Common().StaticCallee() != fn || call.Referrers() == nil {
+								continue
+							}
+							for _, ref := range *call.Referrers() {
+								ex, ok := ref.(*ssa.Extract)
+								if !ok || ex.Index != i || ex.Referrers() == nil {
+									continue
+								}
+								for _, use := range *ex.Referrers() {
+									if sl, ok := use.(*ssa.Slice); ok && sl.Low == ssa.Value(ex) && k >= 0 && k <= 4 {
+										best, found = k, true
+									}
+								}
+							}
+						}
+					}
+				}
+			})
+		}
 		return best, found
 	}
 	for _, name := range names {
